@@ -35,9 +35,9 @@ fi
 go test -vet=off -count=1 ./... 2>&1 | grep -v "^ok\|no test files" | head -5
 echo "suite with change: $(go test -vet=off -count=1 ./... 2>&1 | grep -c '^ok') packages ok, $(go test -vet=off -count=1 ./... 2>&1 | grep -c '^FAIL') FAIL"
 for id in "$@"; do
-  out=$(cd /verif && VERIF_REPO=$W timeout 1500 /verif/bin/crdverif check $id 2>&1); rc=$?
+  out=$(cd /verif && VERIF_OUT=/tmp/seedchk/out-$$ VERIF_REPO=$W timeout 1500 /verif/bin/crdverif check $id 2>&1); rc=$?
   echo "check $id exit=$rc: $(echo "$out" | grep -c '^VIOLATION') violations, $(echo "$out" | grep -c INCONCLUSIVE) inconclusive"
   echo "$out" | grep -A1 '^VIOLATION' | head -6 | cut -c1-300
   echo "$out" | grep INCONCLUSIVE | head -3 | cut -c1-300
 done
-rm -f /tmp/seedchk/out.$$
+rm -rf /tmp/seedchk/out.$$ /tmp/seedchk/out-$$
